@@ -81,8 +81,8 @@ def run_property(pid, tier, seed):
     canary = "sat"
     for key, e1 in engines:
         s = z3.Solver()
-        s.set("timeout", 20000)
-        s.set("rlimit", 50_000_000)
+        s.set("timeout", 3000)       # a refutation of inconsistent schemas is found at once; model construction may not finish
+        s.set("rlimit", 5_000_000)
         for a in e1.axioms:
             s.add(a)
         r = str(s.check())
